@@ -80,6 +80,7 @@ def fit_case(draw):
         "init": draw(st.sampled_from([None, None, 1.1, 0.9])),
         "pre_mode": draw(st.sampled_from(["train", "eval"])),
         "model_seed": draw(seed_s), "fit_seed": draw(seed_s),
+        "second_epochs": draw(st.sampled_from([0, 0, 1, 2])),
     }
 
 
@@ -288,18 +289,21 @@ def check_fit(case, ctx):
         deriv_b.simulate(n_paths=n_paths, init_state=init_state)
         return hedger_b.criterion(hedger_b.compute_portfolio(deriv_b, hedge=hedge_b), deriv_b.payoff())
 
-    for _ in range(k):
-        hedger_b.train()
-        opt_b.zero_grad()
-        loss = one_loss()
-        loss.backward()
-        opt_b.step()
-        if validation:
-            hedger_b.eval()
-            with torch.no_grad():
-                vals = [one_loss() for _ in range(n_times)]
-                v = vals[0] if n_times == 1 else torch.stack(vals).mean(dim=0)
-            hist_b.append(v.item())
+    def reference_loop(epochs, opt, hist):
+        for _ in range(epochs):
+            hedger_b.train()
+            opt.zero_grad()
+            loss = one_loss()
+            loss.backward()
+            opt.step()
+            if validation:
+                hedger_b.eval()
+                with torch.no_grad():
+                    vals = [one_loss() for _ in range(n_times)]
+                    v = vals[0] if n_times == 1 else torch.stack(vals).mean(dim=0)
+                hist.append(v.item())
+
+    reference_loop(k, opt_b, hist_b)
     ref = [p.detach().clone() for p in hedger_b.model.parameters()]
     if not params_equal(after, ref):
         d = max(float((x - y).abs().max()) for x, y in zip(after, ref))
@@ -308,6 +312,30 @@ def check_fit(case, ctx):
     if validation and isinstance(history, list):
         ctx.check(history == hist_b or all(a == b or (a != a and b != b) for a, b in zip(history, hist_b)),
                   "C15/history-differs-from-reference", f"history {history} vs reference {hist_b}")
+    # ---- a hedger is fitted more than once (warm start, curriculum): every call follows the same protocol with the
+    # optimiser it is given - a class is instantiated anew, an instance carries on
+    k2 = case.get("second_epochs", 0)
+    if k2 and params_equal(after, ref):
+        torch.manual_seed(case["fit_seed"] + 1)
+        with ctx.sut("C15/fit"):
+            history2 = hedger.fit(deriv, **dict(fit_kw, n_epochs=k2))
+        after2 = [p.detach().clone() for p in hedger.model.parameters()]
+        torch.manual_seed(case["fit_seed"] + 1)
+        if case["opt_kind"] == "default":
+            opt_b = torch.optim.Adam(hedger_b.model.parameters())
+        elif case["opt_kind"] == "class":
+            opt_b = base(hedger_b.model.parameters(), **kw)
+        hist_b2 = []
+        reference_loop(k2, opt_b, hist_b2)
+        ref2 = [p.detach().clone() for p in hedger_b.model.parameters()]
+        if not params_equal(after2, ref2):
+            d = max(float((x - y).abs().max()) for x, y in zip(after2, ref2))
+            ctx.fail("C15/second-fit-differs-from-reference-loop",
+                     f"a second fit() on the same hedger ({case['opt_kind']} {case['opt']}) differs from the explicit loop (max |diff| {d:.3e})")
+        if validation and isinstance(history2, list):
+            ctx.check(history2 == hist_b2 or all(a == b or (a != a and b != b) for a, b in zip(history2, hist_b2)),
+                      "C15/second-fit-differs-from-reference-loop", f"second history {history2} vs reference {hist_b2}")
+        ctx.cls("second-fit:%d" % k2)
     dropout = "dropout" in case["model"]
     ctx.nontrivial(k >= 2 and (dropout or validation))
     ctx.cls("k:%d" % k, "opt:" + case["opt_kind"] + ":" + (case["opt"] if case["opt_kind"] != "default" else "adam"),
